@@ -109,6 +109,8 @@ pub fn default_guards() -> Vec<String> {
         "session_open_across_vacuum",            // V1
         "create_index_inside_session",           // X1
         "mixed_type_index_out_of_table_order",   // X3
+        "alter_drop_column",                     // D17, D17b
+        "alter_add_column",                      // D16
         "more_than_18_inserts_per_table",        // D9, D15
         "more_than_3_relations",                 // D15, F3 (tables + indexes)
     ]
@@ -503,8 +505,27 @@ impl Gen {
     /// A statement generated to be rejected.
     fn gen_failing(&mut self, tx: Tx, in_session: bool) -> Option<Stmt> {
         let ts = self.visible_tables(tx);
-        let kind = self.rng.below(6);
+        let kind = self.rng.below(7);
         let stmt = match kind {
+            6 if !ts.is_empty() && self.p.updates && !self.in_batch => {
+                // UPDATE that must be rejected as a whole: NULL into a NOT NULL column
+                let others_active = self.model.active().iter().any(|a| *a != tx);
+                if self.p.has("update_inside_open_or_overlapping_txn") && (in_session || others_active) {
+                    return None;
+                }
+                let cands: Vec<usize> = ts.iter().copied().filter(|ti| self.model.tables[*ti].uniques.is_empty() && self.model.tables[*ti].cols.iter().any(|c| c.not_null)).collect();
+                if cands.is_empty() {
+                    return None;
+                }
+                let ti = *self.rng.pick(&cands);
+                let t = self.model.tables[ti].clone();
+                if self.model.visible_rows(tx, ti).is_empty() {
+                    return None;
+                }
+                let c = t.cols.iter().find(|c| c.not_null).unwrap().clone();
+                self.updated_tables.insert(t.name.clone());
+                Stmt::Update { table: t.name.clone(), set: vec![(c.name.clone(), Expr::Lit(Val::Null))], pred: None }
+            }
             0 => Stmt::Select { table: "nosuch".into(), cols: vec![], pred: None },
             1 if !ts.is_empty() => {
                 let t = &self.model.tables[*self.rng.pick(&ts)];
@@ -931,6 +952,15 @@ impl Gen {
                 if self.p.has("ddl_after_vacuum") && self.vacuumed {
                     continue;
                 }
+                if self.p.has("drop_only_after_checkpoint") && !ts.is_empty() && self.sess.is_empty() && self.rng.chance(35) {
+                    // crash profiles: DROP TABLE only of a table without log records since the last
+                    // checkpoint (D6c): right after a checkpoint, in autocommit, nobody else open
+                    let ti = *self.rng.pick(&ts);
+                    let name = self.model.tables[ti].name.clone();
+                    self.emit(Event::Flush);
+                    self.emit(Event::Auto(Stmt::DropTable { name }));
+                    continue;
+                }
                 let rel_ok = !self.p.has("more_than_3_relations") || self.relations_made < 3;
                 if rel_ok && (self.tables_made as usize) < self.p.max_tables as usize && (ts.len() < 2 || self.rng.chance(60)) {
                     if self.p.has("uncheckpointed_create_with_open_txn") && (in_sess.is_some() || !self.sess.is_empty()) {
@@ -944,6 +974,27 @@ impl Gen {
                             if self.p.has("uncheckpointed_create_with_open_txn") {
                                 self.emit(Event::Flush);
                             }
+                        }
+                    }
+                } else if self.p.ddl_rich && !self.p.has("alter_drop_column") && !ts.is_empty() && self.sess.is_empty() && self.rng.chance(12) {
+                    // ALTER ... DROP COLUMN of the last column (dropping a middle column is open finding D17)
+                    let ti = *self.rng.pick(&ts);
+                    let t = self.model.tables[ti].clone();
+                    let last = t.cols.len() - 1;
+                    let in_unique = t.uniques.iter().any(|u| u.cols.contains(&last));
+                    if t.cols.len() >= 3 && !in_unique {
+                        let cname = t.cols[last].name.clone();
+                        let s = Stmt::Alter { table: t.name.clone(), action: AlterAction::DropColumn(cname.clone()) };
+                        let tx = self.model.begin();
+                        let exp = self.model.run(tx, &s, false);
+                        self.model.abort(tx);
+                        if matches!(exp, Expect::Ddl) {
+                            self.emit(Event::Auto(s));
+                            // the dropped name must be gone for every kind of statement
+                            self.emit(Event::Auto(Stmt::Select { table: t.name.clone(), cols: vec![cname.clone()], pred: None }));
+                            self.emit(Event::Auto(Stmt::CreateIndex { name: format!("ixd{}", self.next_val), table: t.name.clone(), cols: vec![cname.clone()] }));
+                            self.next_val += 1;
+                            self.emit(Event::Check);
                         }
                     }
                 } else if self.p.ddl_rich && !ts.is_empty() && self.sess.is_empty() && self.rng.chance(25) {
@@ -966,7 +1017,7 @@ impl Gen {
                     let t = self.model.tables[ti].clone();
                     let c = self.rng.pick(&t.cols).clone();
                     if self.p.has("create_index_inside_session") && !self.sess.is_empty() {
-                        continue; // X1
+                        continue; // X1, X1b: also an idle older session loses the table
                     }
                     if self.p.has("null_in_unique_column") {
                         // X2: a NULL already stored in the column makes the index build fail
@@ -1018,6 +1069,15 @@ impl Gen {
                                 }
                             }
                         }
+                    }
+                } else if !ts.is_empty() && self.rng.chance(50) && self.p.has("drop_table_before_crash") {
+                    // crash profiles: DROP TABLE only of a table without log records since the last
+                    // checkpoint (D6c), i.e. right after a checkpoint, in autocommit, nobody else open
+                    if self.sess.is_empty() && self.p.has("drop_only_after_checkpoint") {
+                        let ti = *self.rng.pick(&ts);
+                        let name = self.model.tables[ti].name.clone();
+                        self.emit(Event::Flush);
+                        self.emit(Event::Auto(Stmt::DropTable { name }));
                     }
                 } else if ts.len() > 1 && self.rng.chance(50) && !self.p.has("drop_table_before_crash") {
                     let ti = *self.rng.pick(&ts);
